@@ -170,24 +170,27 @@ Print Assumptions C01_every_interleaving_queued_at_most_once.
 (** ... for the collections made of several groups (FuturesUnordered, MergeUnbounded,
     FuturesOrdered: ConcGroups.v): every group is a copy of the model above with its own ready
     queue, registered waker and waker calls in flight; the calls of all groups and the owner's
-    visits of the groups, one after the other, interleave arbitrarily.  Whenever the last poll of
-    the collection returned Pending and its task waker has not been invoked since that poll began
-    (by a notify step of any group that has it registered, or by the owner waking itself), every
-    group still has that waker registered, and every child of every group that was woken or
-    pushed since its own last poll began has a waker call in flight that has not yet notified *)
+    visits of the groups, one after the other, interleave arbitrarily; a group that is empty
+    answers None without registering and the owner moves on.  Whenever the last poll of the
+    collection returned Pending and its task waker has not been invoked since that poll began (by
+    a notify step of any group that has it registered, or by the owner waking itself), every group
+    answered None or Pending in that poll, every group that answered Pending still has that
+    waker registered, and every child of such a group that was woken or pushed since its own last
+    poll began has a waker call in flight that has not yet notified *)
 From FB Require Import ConcGroups.
 Theorem C01_every_interleaving_groups_pending_never_loses_a_wake :
   forall (B : nat) (m : mst),
   mreach B m -> mo m = OIdle RPending -> gwoken m = false ->
   forall (g : nat) (s : st), nth_error (grp m) g = Some s ->
-    reg s = Some (mW m) /\ forall i, armed s i = true -> in_flight s.
+    (pp s = PIdle RPending \/ pp s = PIdle RNone)
+    /\ (pp s = PIdle RPending -> reg s = Some (mW m) /\ forall i, armed s i = true -> in_flight s).
 Proof. exact pending_never_loses_a_wake_groups. Qed.
 Print Assumptions C01_every_interleaving_groups_pending_never_loses_a_wake.
 
 Theorem C01_every_interleaving_groups_quiescent :
   forall (B : nat) (m : mst) (g : nat) (s : st) (i : nat),
-  mreach B m -> mo m = OIdle RPending -> nth_error (grp m) g = Some s -> ~ in_flight s -> armed s i = true ->
-  gwoken m = true.
+  mreach B m -> mo m = OIdle RPending -> nth_error (grp m) g = Some s -> pp s = PIdle RPending ->
+  ~ in_flight s -> armed s i = true -> gwoken m = true.
 Proof. exact quiescent_pending_means_woken_groups. Qed.
 Print Assumptions C01_every_interleaving_groups_quiescent.
 
